@@ -383,6 +383,18 @@ func (c *Ctx) inCompactSection(fn *ssa.Function) bool {
 
 // prefixAppendShape recognises append(append(make(...), P1...), P2...) and returns the two parameters.
 func prefixAppendShape(v ssa.Value) (p1, p2 *ssa.Parameter, ok bool) {
+	// slices.Concat(existing, appended): a fresh slice holding the first operand's elements followed by the second's
+	if cc, isCall := resolve(v).(*ssa.Call); isCall && calleeFullName(&cc.Call) == "slices.Concat" {
+		el := variadicElems(cc.Call.Args)
+		if len(el) == 2 {
+			a, okA := resolve(el[0]).(*ssa.Parameter)
+			b, okB := resolve(el[1]).(*ssa.Parameter)
+			if okA && okB {
+				return a, b, true
+			}
+		}
+		return nil, nil, false
+	}
 	outer, ok1 := resolve(v).(*ssa.Call)
 	if !ok1 || calleeFullName(&outer.Call) != "builtin append" || len(outer.Call.Args) != 2 {
 		return nil, nil, false
